@@ -105,10 +105,10 @@ XalanOutputStream::write(
         flushBuffer();
     }
 
-    if (theBufferLength > m_bufferSize)
+    // flushBuffer() keeps a trailing high surrogate, so the
+    // buffer is not necessarily empty here.
+    if (theBufferLength > m_bufferSize && m_buffer.empty() == true)
     {
-        assert(m_buffer.empty() == true);
-
         doWrite(theBuffer, theBufferLength);
     }
     else
@@ -196,6 +196,18 @@ XalanOutputStream::transcode(
                             theExceptionBuffer,
                             0);
                 }
+            }
+
+            if (theSourceBytesEaten == 0 && theTargetBytesEaten == 0 && theTargetSize > 8)
+            {
+                // The transcoder cannot make progress, for instance
+                // because the input ends in the middle of a surrogate
+                // pair.  More room will not help, so don't loop.
+                XalanDOMString  theExceptionBuffer(theDestination.getMemoryManager());
+
+                throw TranscodingException(
+                        theExceptionBuffer,
+                        0);
             }
 
             theTotalBytesFilled += theTargetBytesEaten;
@@ -318,14 +330,28 @@ XalanOutputStream::flushBuffer()
 {
     if (m_buffer.empty() == false)
     {
-        CollectionClearGuard<BufferType>    theGuard(m_buffer);
-
         assert(size_type(m_buffer.size()) == m_buffer.size());
 
-        doWrite(&*m_buffer.begin(), size_type(m_buffer.size()));
-    }
+        const size_type     theSize = size_type(m_buffer.size());
 
-    assert(m_buffer.empty() == true);
+        // Don't hand the transcoder half of a surrogate pair: if the
+        // buffer ends with a high surrogate, keep it for the next time.
+        const XalanDOMChar  theLast = m_buffer[theSize - 1];
+
+        const bool  fKeepLast =
+            theSize > 1 && theLast >= 0xD800u && theLast <= 0xDBFFu;
+
+        {
+            CollectionClearGuard<BufferType>    theGuard(m_buffer);
+
+            doWrite(&*m_buffer.begin(), fKeepLast == true ? theSize - 1 : theSize);
+        }
+
+        if (fKeepLast == true)
+        {
+            m_buffer.push_back(theLast);
+        }
+    }
 }
 
 
